@@ -24,6 +24,8 @@ var guardedLiteclient = map[string]string{
 }
 
 func propC12(c *Ctx) propInfo {
+	c.errflow(excC12E2, "liteclient")
+	c.queryFraming()
 	la := c.newLockAnalysis("liteclient")
 	la.guardedBy("E9.K1-guarded-by", guardedLiteclient, map[string]string{
 		"(*liteclient.Connection).setupEncryptedConnection read liteclient.Connection.econn":   "read by the single goroutine that performs the (re)connect; status is Connecting, so Send and other users do not touch econn until this goroutine publishes Connected",
@@ -471,4 +473,100 @@ func (c *Ctx) freshFrameBuffer(R string) {
 	}
 	c.check(okv && n == 2, R, "ParsePacket reads every frame into a buffer allocated by that call", f.Pos(), "make([]byte, …) per call", "ParsePacket reads frames into a pooled or shared buffer (or one not allocated by the call): the payload returned to one caller aliases memory the next frame is read into, so concurrent callers receive each other's bytes")
 	c.floor(R, 1)
+}
+
+var excC12E2 = map[string]string{}
+
+// queryFraming: adnl.message.query / adnl.message.answer carry the 256-bit query id right after
+// the 4-byte constructor id and the TL byte string after that. The writer (Client.Request) makes a
+// 4-byte head and appends id, length, data; the reader (processQueryAnswer) must take the id from
+// the same offsets and start decoding the byte string where the id ends - a one-byte shift makes
+// every answer an "unknown query".
+func (c *Ctx) queryFraming() {
+	const R = "E7.query-framing"
+	w := c.mustFn(R, "liteclient", "Client.Request")
+	r := c.mustFn(R, "liteclient", "Client.processQueryAnswer")
+	if w == nil || r == nil {
+		return
+	}
+	head := int64(-1)
+	allInstrs(w, func(_ *ssa.BasicBlock, in ssa.Instruction) {
+		if mk, ok := in.(*ssa.MakeSlice); ok {
+			if k, ok := constInt(mk.Len); ok && head < 0 {
+				head = k
+			}
+		}
+	})
+	// first append after the head: the id array
+	idLen := int64(-1)
+	allInstrs(w, func(_ *ssa.BasicBlock, in ssa.Instruction) {
+		cl, ok := in.(*ssa.Call)
+		if !ok || idLen >= 0 {
+			return
+		}
+		if bi, ok := cl.Call.Value.(*ssa.Builtin); !ok || bi.Name() != "append" {
+			return
+		}
+		if sl, ok := cl.Call.Args[1].(*ssa.Slice); ok {
+			if n, ok := arrayLen(sl.X.Type()); ok {
+				idLen = n
+			}
+		}
+	})
+	lo, hi, off := int64(-1), int64(-1), int64(-1)
+	allInstrs(r, func(_ *ssa.BasicBlock, in ssa.Instruction) {
+		cl, ok := in.(*ssa.Call)
+		if !ok {
+			return
+		}
+		if bi, ok := cl.Call.Value.(*ssa.Builtin); ok && bi.Name() == "copy" {
+			if sl, ok := cl.Call.Args[1].(*ssa.Slice); ok && sl.Low != nil && sl.High != nil {
+				lo, _ = constInt(sl.Low)
+				hi, _ = constInt(sl.High)
+			}
+		}
+		if callQName(&cl.Call) == modPath+"/liteclient.decodeLength" {
+			if sl, ok := cl.Call.Args[0].(*ssa.Slice); ok && sl.Low != nil {
+				off, _ = constInt(sl.Low)
+			}
+		}
+	})
+	okv := head == 4 && idLen == 32 && lo == head && hi == head+idLen && off == hi
+	c.check(okv, R, "query id at [4:36], byte string from 36 on both sides", w.Pos(), fmt.Sprintf("writer: %d-byte head, %d-byte id; reader: id [%d:%d], data from %d", head, idLen, lo, hi, off),
+		fmt.Sprintf("the request is built as a %d-byte head followed by a %d-byte query id, but the answer's id is read from [%d:%d] and its byte string from offset %d: ids never match (every answer is an unknown query) or the data is misframed", head, idLen, lo, hi, off))
+	// the long/short length forms agree between encodeLength and decodeLength (same threshold and marker)
+	if e, d := c.fn("liteclient", "encodeLength"), c.fn("liteclient", "decodeLength"); e != nil && d != nil {
+		consts := func(f *ssa.Function) (thr, marker, shift int64) {
+			thr, marker, shift = -1, -1, -1
+			allInstrs(f, func(_ *ssa.BasicBlock, in ssa.Instruction) {
+				switch x := in.(type) {
+				case *ssa.BinOp:
+					if k, ok := constInt(x.Y); ok {
+						switch x.Op {
+						case token.GEQ, token.LSS:
+							if k >= 200 {
+								thr = k
+							}
+						case token.GTR, token.LEQ:
+							if k >= 200 {
+								thr = k + 1
+							}
+						case token.SHL, token.SHR:
+							shift = k
+						}
+					}
+				case *ssa.Store:
+					if k, ok := constInt(x.Val); ok && k >= 200 {
+						if _, isIdx := x.Addr.(*ssa.IndexAddr); isIdx {
+							marker = k
+						}
+					}
+				}
+			})
+			return
+		}
+		et, em, es := consts(e)
+		dt, dm, ds := consts(d)
+		c.check(et == 254 && dt == 254 && em == 254 && dm == 254 && es == 8 && ds == 8, R, "length prefix: short below 254, else 254 | 24-bit little-endian", e.Pos(), "threshold 254, marker 254, shift 8 on both sides", fmt.Sprintf("encodeLength (threshold %d, marker %d, shift %d) and decodeLength (threshold %d, restored marker %d, shift %d) do not both implement the TL length prefix (one byte below 254, otherwise 254 followed by the 24-bit little-endian length)", et, em, es, dt, dm, ds))
+	}
 }
